@@ -207,7 +207,9 @@ def run_check(
     sites = S.patch_flowmark()
     ev.coverage.setdefault("patched_sites", sites)
     t0 = time.time()
-    jobs = [(module, c, sample_paths, C.seed() * 1000003 + i, max_paths, timeout_ms) for i, c in enumerate(cases)]
+    # longest-expected first so the pool does not end on a straggler
+    order = sorted(range(len(cases)), key=lambda i: -float(cases[i].get("cost", 0)))
+    jobs = [(module, cases[i], sample_paths, C.seed() * 1000003 + i, max_paths, timeout_ms) for i in order]
     results: list[dict[str, Any]] = []
     skipped = 0
     for r in C.parallel(_explore_job, jobs):
